@@ -84,6 +84,13 @@ class Effects(object):
     def of(self, f):
         return self.sum[id(f)]
 
+    def query(self, f):
+        """A per-function evaluator with the converged local points-to environment (for per-store queries)."""
+        A = _FuncAnalysis(self, f)
+        A.env = dict(self.env.get(id(f), {}))
+        A.changed = False
+        return A
+
     def _solve(self):
         changed = True
         while changed:
